@@ -40,7 +40,7 @@ def _selected():
 
 
 def bounds(tier):
-    return dict(contracts=_selected(), inputs_per_contract=9 if tier == 'quick' else 12 * DEEP, variables='2-4')
+    return dict(contracts=_selected(), inputs_per_contract=9 if tier == 'quick' else 4 * DEEP, variables='2-4')
 
 
 def chunks(tier, seed):
@@ -48,7 +48,7 @@ def chunks(tier, seed):
     out = []
     for key in _selected():
         heavy = '_image' in key       # the relational product needs an interpretation of IMG/FIMG: ~20 s per input
-        n = (3 if heavy else 9) if tier == 'quick' else (2 if heavy else 12) * DEEP
+        n = (3 if heavy else 9) if tier == 'quick' else (1 if heavy else 4) * DEEP
         step = 1 if tier == 'quick' else 4
         for k in range(0, n, step):
             out.append(('case_contract', [dict(key=key, seed=seed * 100003 + k + i) for i in range(min(step, n - k))]))
